@@ -435,6 +435,7 @@ def applyOp (toks : List String) (w : World ByteArray) : Except Err (World ByteA
     (match alookup w.idx (unhex sp) with
      | some stg => .ok { w with idx := setStage w.idx (unhex sp) { stg with cmd := unhex cmd } }
      | none => .error .unknownStage, #[])
+  | ["staletmp", _] => (.ok w, #[])      -- a leftover temp file next to a stage file: not part of the modelled project
   | ["setskip", sp, ap] =>
     -- the user edits a stage file: the output `ap` becomes skip-cache (checksum and the rest stay)
     (match alookup w.idx (unhex sp) with
